@@ -213,7 +213,10 @@ func checkWrap(c WrapCase, o *stats.Obs) error {
 	for n := 1; n <= c.Adds; n++ {
 		q.Add(msg(n))
 		near := n%997 == 0 || n == c.Adds
-		for k := uint(4); k <= 30 && !near; k++ {
+		if c.Cap > 1000 {
+			near = n%40009 == 0 || n == c.Adds || n == c.Cap || n == c.Cap+1 || n == c.Cap+150 // (a snapshot of a big queue is costly)
+		}
+		for k := uint(4); k <= 30 && !near && c.Cap <= 1000; k++ {
 			d := n - 1<<k
 			near = d >= -3 && d <= 3
 		}
@@ -250,6 +253,12 @@ func TestWrap(t *testing.T) {
 	for _, capn := range []int{1, 2, 3, 8, 20} {
 		stats.Do(R, t, "wrap", WrapCase{Cap: capn, Adds: adds}, checkWrap)
 	}
+	// one run past 2^22 additions (2^24 in the thorough tier), and one queue with a capacity beyond 2^16, filled
+	stats.Do(R, t, "wrap", WrapCase{Cap: 20, Adds: 1<<22 + 40}, checkWrap)
+	if os.Getenv("VERIF_TIER") == "thorough" {
+		stats.Do(R, t, "wrap", WrapCase{Cap: 3, Adds: 1<<24 + 40}, checkWrap)
+	}
+	stats.Do(R, t, "wrap", WrapCase{Cap: 1<<16 + 5, Adds: 1<<16 + 5 + 300}, checkWrap) // (every addition to a full queue sorts its keys)
 }
 
 func genLong(t *rapid.T) SeqCase {
